@@ -556,7 +556,7 @@ def run(c):
         if not (0.0 <= o.inc <= PI) or not (o.e >= 0) or not (o.d > 0):
             fail("orbit-range-inc-e-d", "reported inc/e/d out of range", dict(rep, inc=o.inc, e=o.e, d=o.d))
         # defining relations against the vector oracle
-        cond_a = max(1.0, abs(oa) / orr)       # a = 1/(2/r - v^2/mu) loses digits when |a| >> r
+        cond_a = max(1.0, abs(oa) / orr, orr / abs(oa))       # a = 1/(2/r - v^2/mu) loses digits when |a| >> r; the e-vector when r >> |a|
         if not abs(o.a - oa) <= 1e-9 * abs(oa) * cond_a:
             fail("orbit-a", "reported a violates vis-viva", dict(rep, got=o.a, want=oa))
         track("a_rel", abs(o.a - oa) / abs(oa) / cond_a)
@@ -570,7 +570,7 @@ def run(c):
             fail("orbit-d-v", "reported d/v wrong", dict(rep))
         if oh > 1e-9 * rs * vs:
             p_sl = oh * oh / mu
-            if not abs(o.a * (1 - o.e * o.e) - p_sl) <= 1e-8 * p_sl * cond_a:
+            if not abs(o.a * (1 - o.e * o.e) - p_sl) <= 1e-8 * p_sl * cond_a * max(1.0, 1.0 / abs(1 - o.e)):
                 fail("orbit-h2", "h^2 != mu a (1-e^2) for the reported elements", dict(rep, got=o.a * (1 - o.e * o.e), want=p_sl))
         if o.a == o.a and o.a != 0:
             n_want = math.copysign(math.sqrt(mu / abs(o.a) ** 3), o.a)
@@ -775,6 +775,9 @@ def run(c):
     # ---------------------------------------------------------------- Python-only arguments with a C counterpart
     python_only(c, rebound, clib, P, rng, fail)
 
+    # ---------------------------------------------------------------- configuration dimensions crossed with the oracle
+    config_dimensions(c, rebound, clib, P, rng, fail, check_reader, thorough)
+
     # ---------------------------------------------------------------- asymptote boundary e cos f == -1
     nb = 0
     for i in range(NS):
@@ -878,7 +881,7 @@ def run(c):
                 co, po, rep, valid = detail
                 value_errs = ("E1", "E2", "E3", "E4", "E5", "E6", "E12")
                 okc = len(gt) == 2 and ((gt[0] == co[0]) if gt[0].startswith("E") else (co[0] == "ok" or (not valid and co[0] in value_errs)))
-                okp = len(gt) == 2 and ((gt[1] == po[0]) if gt[1].startswith("E") else (po[0] == "ok" or (not valid and po[0] in value_errs)))
+                okp = len(gt) == 2 and ((gt[1] == po[0]) if gt[1].startswith("E") else (po[0] == "ok" or (not valid and (po[0] in value_errs or po[0].startswith("EX:")))))
                 if not (okc and okp):
                     st[2] += 1
                     ndis += 1
@@ -929,6 +932,12 @@ def run(c):
     c.cov["pal_inputs"] = pal_hist
     c.cov["front_ends"] = fe
     c.cov["worst_measured"] = {k: float("%.3g" % v) for k, v in sorted(worst.items())}
+    DIM["a_decades"] = len(a_decades)
+    c.cov["dimensions"] = dict((k, DIM.get(k, 0)) for k in APPLICABLE_DIMS)
+    c.cov["a_decades_covered"] = sorted(a_decades)
+    for k in APPLICABLE_DIMS:
+        if DIM.get(k, 0) == 0 or (k == "a_decades" and DIM[k] < 12):
+            c.broken.append("dimension %s not covered (%d cases)" % (k, DIM.get(k, 0)))
     c.cov["rule"] = ("(1) every class of the presence summary (2^15: simulation, any Cartesian, any Pal, primary, a, P, any of e/inc/Omega, omega, pomega, each of f M E l theta T) "
                      "is executed on reb_simulation_add_fmt / reb_particle_from_fmt, on rebound.Particle(...) and on both Lean validators with a random representative "
                      "(random non-empty subsets inside the groups, random m/r/hash) and random valid values, plus random 28-bit patterns with valid and invalid values; "
@@ -1067,11 +1076,15 @@ def front_ends(c, rebound, clib, P, rng, add, fail, c_err_by_msg, thorough, trac
             return ("E%d" % c_err_by_msg.get(msg, -1), msg)
         return ("ok", [p.x, p.y, p.z, p.vx, p.vy, p.vz, p.m, p.r, p.hash.value])
 
-    def run_py(sim, pres, v, via_add=False):
+    def run_py(sim, pres, v, via_add=False, as_int=None, none_absent=False):
         kw = {}
         for k in ARGS[1:]:
             if pres[k]:
                 kw[k] = mkp(v[k]) if k == "primary" else v[k]
+            elif none_absent and k != "hash":
+                kw[k] = None            # an explicit None is "not passed"
+        if as_int is not None and as_int in kw:
+            kw[as_int] = int(kw[as_int])
         try:
             if via_add and pres["sim"]:
                 n0 = sim.N
@@ -1089,12 +1102,20 @@ def front_ends(c, rebound, clib, P, rng, add, fail, c_err_by_msg, thorough, trac
 
     pending = []   # (pres, vals, c_out, py_out, index of 'v' line, index of 'fmt' line or None)
 
-    def one(pres, valid, tag):
+    def one(pres, valid, tag, force=None, as_int=None, none_absent=None):
         sim = rng.choice(sims)
         v = values(pres, valid)
+        if force:
+            v.update(force)
+        if none_absent is None:
+            none_absent = rng.chance(0.2)
+        if none_absent:
+            dim("value_none_for_absent_argument")
+        if sim.G != 1.0 and pres["sim"]:
+            dim("G_not_1")
         bits = "".join("1" if pres[k] else "0" for k in ARGS)
         co = run_c(sim, pres, v)
-        po = run_py(sim, pres, v, via_add=rng.chance(0.3))
+        po = run_py(sim, pres, v, via_add=rng.chance(0.3), as_int=as_int, none_absent=none_absent)
         stats["c_verdicts"][co[0]] = stats["c_verdicts"].get(co[0], 0) + 1
         stats["py_verdicts"][po[0]] = stats["py_verdicts"].get(po[0], 0) + 1
         rep = dict(present=[k for k in ARGS if pres[k]], values=v, G=sim.G, t=sim.t, c=co, python=po)
@@ -1115,7 +1136,11 @@ def front_ends(c, rebound, clib, P, rng, add, fail, c_err_by_msg, thorough, trac
         pal_any = any(pres[k] for k in ["h", "k", "ix", "iy"])
         if co[0] != po[0]:
             stats["front_end_disagreements"] += 1
-            if pres["primary"] and pal_any and not nonpal_other and co[0] == "E7":
+            zero_mu = pres["T"] and (v["primary"][6] if pres["primary"] else 1.0) + v.get("m", 0.0) == 0.0
+            if po[0] == "EX:ZeroDivisionError" and zero_mu and co[0].startswith("E"):
+                fail("C11:python-T-zero-mass-zerodivision", "time of pericentre T with zero total mass: C reports a particle error, "
+                     "Particle.__init__ raises ZeroDivisionError (n = (G*0/abs(a**3))**0.5 with a = 0 or 0/0) instead of ValueError", rep)
+            elif pres["primary"] and pal_any and not nonpal_other and co[0] == "E7":
                 fail(F18, "reb_simulation_add_fmt rejects Pal elements with an explicit primary (error 7), Particle.__init__ accepts them", rep)
             else:
                 fail("front-ends-verdict:%s-vs-%s" % (co[0], po[0]), "C and Python front ends decide differently on the same arguments", rep)
@@ -1194,11 +1219,298 @@ def front_ends(c, rebound, clib, P, rng, add, fail, c_err_by_msg, thorough, trac
         one(pres, rng.chance(0.6), "random")
         stats["random_patterns"] += 1
 
+    # argument VALUES 0.0 / -0.0 / int / inf in every position: "passed with value zero" must not be "not passed"
+    companions = {"cart": [], "orb": ["a"], "pal": ["a"]}
+    for name in ARGS[1:]:
+        if name in ("hash", "primary"):
+            continue
+        grp = "cart" if name in COMPS + ["m", "r"] else ("pal" if name in ("h", "k", "ix", "iy") else "orb")
+        for rep_ in range(3 if thorough else 1):
+            for z, kind in ((0.0, "zero"), (-0.0, "zero"), (0, "int0"), (rng.randint(1, 3), "int"), (float("inf"), "inf"), (float("-inf"), "inf")):
+                pres = dict((k, False) for k in ARGS)
+                pres["sim"] = True
+                pres[name] = True
+                for k in companions[grp]:
+                    if name not in ("a", "P"):
+                        pres[k] = True
+                if grp != "cart" and rng.chance(0.5):
+                    pres[rng.choice(["e", "inc", "Omega"] if grp == "orb" else ["l"])] = True
+                if rng.chance(0.5):
+                    pres["m"] = True
+                force = {name: float(z)}
+                one(pres, False, "value-" + kind, force=force, as_int=name if kind in ("int0", "int") else None, none_absent=rng.chance(0.5))
+                dim({"zero": "value_zero_or_signed_zero_argument", "int0": "value_int_argument", "int": "value_int_argument", "inf": "value_inf_argument"}[kind])
+                if kind == "int0":
+                    dim("value_zero_or_signed_zero_argument")
     # validators of the model against both real front ends
     base = len(pending)
     for bits, co, po, rep, valid in pending:
         add("v " + bits, None, "v", (co, po, rep, valid))
     return stats
+
+
+def in_child(fn):
+    """run fn() in a forked child (a wrong argument type handed to ctypes can crash the interpreter);
+    returns ("ok", value) / ("exc", text) / ("crash", signal)"""
+    r, w = os.pipe()
+    sys.stdout.flush()
+    pid = os.fork()
+    if pid == 0:
+        os.close(r)
+        try:
+            out = ("ok", fn())
+        except BaseException as ex:
+            out = ("exc", "%s: %s" % (type(ex).__name__, ex))
+        try:
+            os.write(w, json.dumps(out).encode())
+        finally:
+            os._exit(0)
+    os.close(w)
+    data = b""
+    while True:
+        chunk = os.read(r, 65536)
+        if not chunk:
+            break
+        data += chunk
+    os.close(r)
+    _, status = os.waitpid(pid, 0)
+    if os.WIFSIGNALED(status):
+        return ("crash", os.WTERMSIG(status))
+    try:
+        return tuple(json.loads(data.decode()))
+    except Exception:
+        return ("crash", -1)
+
+
+def config_dimensions(c, rebound, clib, P, rng, fail, check_reader, thorough):
+    """simulation-level configurations crossed with the element oracle: G, units, primary given as particle /
+    index / hash / default centre of mass with test particles, N_active, zero-mass bodies, variational particles;
+    hash arguments; every public read-back path (orbits(), orbits(primary=), orbits(jacobi_masses=True),
+    particle.orbit(), particle.orbit(primary=, G=)); T with sim.t != 0."""
+    def pv_(p):
+        return [p.x, p.y, p.z, p.vx, p.vy, p.vz, p.m]
+
+    def bits(p):
+        return [d2h(x) for x in pv_(p)]
+
+    def fcom(ps):
+        """independent centre of mass (math.fsum)"""
+        M = math.fsum(q.m for q in ps)
+        if M == 0:
+            return [0.0] * 6 + [0.0]
+        return [math.fsum(q.m * getattr(q, k) for q in ps) / M for k in COMPS] + [M]
+
+    def orbit_fields(o):
+        return [getattr(o, k) for k in ORB_FIELDS]
+
+    def same_orbit(o1, o2, what, rep, tol=0.0):
+        planar = o2.inc < 1e-6 or o2.inc > PI - 1e-6
+        for k in ORB_FIELDS:
+            a_, b_ = getattr(o1, k), getattr(o2, k)
+            if d2h(a_) == d2h(b_):
+                continue
+            ok = False
+            if tol and planar and k in ("Omega", "omega", "inc", "pal_h", "pal_k", "pal_ix", "pal_iy"):
+                continue      # node direction of an exactly planar orbit is decided by the last bit of the primary
+            if tol and a_ == a_ and b_ == b_:
+                if k in ("Omega", "omega", "pomega", "f", "M", "l", "theta", "inc"):
+                    ok = angdiff(a_, b_) <= tol * 1e3
+                else:
+                    ok = abs(a_ - b_) <= tol * max(abs(a_), abs(b_), 1e-300) * 1e3
+            if not ok:
+                fail(what, what + ": field %s differs" % k, dict(rep, field=k, got=a_, want=b_))
+                return False
+        return True
+    clib.reb_hash.restype = ctypes.c_uint32
+    nrep = 80 if thorough else 16
+    for rep_ in range(nrep):
+        sim = rebound.Simulation()
+        unit_case = rep_ % 4
+        if unit_case == 1:
+            sim.units = ("AU", "yr", "Msun")
+            dim("units_set")
+        elif unit_case == 2:
+            sim.units = ("km", "s", "kg")
+            dim("units_set")
+        elif unit_case == 3:
+            sim.G = 10 ** rng.uniform(-3, 3)
+        if sim.G != 1.0:
+            dim("G_not_1")
+        mscale = 1.0 if unit_case != 2 else 1e30
+        lscale = 1.0 if unit_case != 2 else 1e8
+        sim.t = rng.choice([0.0, 3.7, -12.5])
+        off = [rng.normal() * lscale for _ in range(3)]
+        vsc = math.sqrt(sim.G * mscale / lscale)
+        voff = [rng.normal() * 0.1 * vsc for _ in range(3)]
+        sim.add(m=mscale, x=off[0], y=off[1], z=off[2], vx=voff[0], vy=voff[1], vz=voff[2], hash="star")
+        nb = rng.randint(2, 4)
+        for i in range(nb):
+            kw = dict(m=mscale * rng.choice([0.0, 1e-3, 1e-5]) if i else mscale * 1e-3, a=lscale * (1 + i) * rng.uniform(0.8, 1.3), e=rng.uniform(0.01, 0.4),
+                      inc=rng.choice([rng.uniform(0, 0.3), PI - rng.uniform(0, 0.3), 0.0, PI]), Omega=rng.uniform(-7, 7), omega=rng.uniform(-7, 7),
+                      f=rng.uniform(-7, 7), hash="body%d" % i)
+            if kw["m"] == 0.0:
+                dim("zero_mass_active_body")
+            sim.add(**kw)
+        # test particles: massless and massive
+        ntest = rng.randint(1, 2)
+        sim.N_active = sim.N
+        sim.testparticle_type = (rep_ // 2) % 2
+        for i in range(ntest):
+            mt = mscale * 1e-6 if sim.testparticle_type == 1 and (i == 0 or rng.chance(0.5)) else 0.0
+            if mt:
+                dim("massive_test_particle")
+            sim.add(m=mt, a=lscale * (6 + i), e=0.1, f=rng.uniform(0, 6), hash="test%d" % i)
+        dim("N_active_lt_N")
+        nreal = sim.N
+        with_var = rep_ % 2 == 1
+        if with_var:
+            v1 = sim.add_variation()
+            v1.vary(1, "a")
+            if rng.chance(0.5):
+                v2 = sim.add_variation(order=2, first_order=v1)
+                v2.vary(1, "a", "a")
+            dim("variational_particles_present")
+        real = [sim.particles[i] for i in range(nreal)]
+        G = sim.G
+        rep = dict(G=G, t=sim.t, units=unit_case, N=nreal, N_active=sim.N_active, N_var=sim.N_var, testparticle_type=sim.testparticle_type,
+                   particles=[pv_(q) for q in real])
+        # ---- default primary = centre of mass of the real particles (test particles included, variational excluded)
+        newkw = dict(m=mscale * 1e-4, a=lscale * 9.5, e=0.2, inc=0.4, Omega=0.3, omega=0.2, M=rng.choice([1.0, -7.5]))
+        pd = P(simulation=sim, **newkw)
+        comc = clib.reb_simulation_com(ctypes.byref(sim))
+        como = fcom(real)
+        scale = max(abs(x) for x in como[:3]) + lscale
+        if not all(abs(getattr(comc, k) - como[i]) <= 1e-12 * (scale if i < 3 else vsc) for i, k in enumerate(COMPS)) or not abs(comc.m - como[6]) <= 1e-12 * como[6]:
+            fail("default-primary-com", "reb_simulation_com is not the centre of mass of the real (non-variational) particles", dict(rep, got=pv_(comc), want=como))
+        pe = P(simulation=sim, primary=comc, **newkw)
+        if bits(pd) != bits(pe):
+            fail("default-primary", "Particle(simulation=sim, elements) is not the orbit around reb_simulation_com(sim)", dict(rep, kwargs=newkw))
+        names = list(newkw)
+        with CapStderr() as cap:
+            pc = clib.reb_particle_from_fmt(ctypes.byref(sim), " ".join(names).encode(), *[D(newkw[n_]) for n_ in names])
+        if bits(pc) != bits(pd):
+            fail("default-primary-c", "reb_particle_from_fmt and Particle() differ with the default primary", dict(rep, kwargs=newkw, c=pv_(pc), python=pv_(pd), stderr=cap.text[:200]))
+        dim("primary_default_com")
+        c.count(("dim", "default-primary", with_var, sim.testparticle_type))
+        # ---- primary as particle / index / hash string
+        idx = rng.choice([i_ for i_ in range(nb + 1) if sim.particles[i_].m > 0])
+        ref = P(simulation=sim, primary=sim.particles[idx], **newkw)
+        dim("primary_as_particle")
+        for how, val in (("index", idx), ("hash", "star" if idx == 0 else "body%d" % (idx - 1))):
+            res = in_child(lambda: bits(P(simulation=sim, primary=val, **newkw)))
+            if res[0] != "ok" or res[1] != bits(ref):
+                fail("primary-as-" + how, "primary given as %s is not particles[%d] (%s)" % (how, idx, res[0] if res[0] != "ok" else "different particle"),
+                     dict(rep, primary=val, outcome=res[0], detail=res[1] if res[0] != "ok" else None))
+            dim("primary_as_index" if how == "index" else "primary_as_hash_string")
+        with CapStderr() as cap:
+            pc = clib.reb_particle_from_fmt(ctypes.byref(sim), (" ".join(names) + " primary").encode(), *([D(newkw[n_]) for n_ in names] + [sim.particles[idx]]))
+        if bits(pc) != bits(ref):
+            fail("primary-as-particle-c", "C and Python differ with an explicit primary in a populated simulation", dict(rep, c=pv_(pc), python=pv_(ref)))
+        # oracle for the explicit primary
+        prv = pv_(sim.particles[idx])
+        mu = G * (newkw["m"] + prv[6])
+        Ek = solve_kepler(newkw["e"], newkw["M"])
+        want = kepler_to_cart(mu, newkw["a"], newkw["e"], newkw["inc"], newkw["Omega"], newkw["omega"], f_of_E(newkw["e"], Ek))
+        relp = max(abs(getattr(ref, COMPS[j]) - prv[j] - want[j]) for j in range(3)) / newkw["a"]
+        relv = max(abs(getattr(ref, COMPS[j]) - prv[j] - want[j]) for j in range(3, 6)) / math.sqrt(mu / newkw["a"])
+        if not (relp <= 1e-9 and relv <= 1e-9):
+            fail("populated-sim-vs-oracle", "elements -> particle wrong in a populated simulation (G=%g)" % G, dict(rep, relp=relp, relv=relv))
+        # jacobi_masses
+        pj = P(simulation=sim, jacobi_masses=True, **newkw)
+        interior = 0
+        for q in sim.particles:          # what the constructor sums: every particle of the simulation
+            interior += q.m
+        cm = clib.reb_simulation_com(ctypes.byref(sim))
+        cm.m = sim.particles[0].m * (newkw["m"] + interior) / interior - newkw["m"]
+        if bits(pj) != bits(P(simulation=sim, primary=cm, **newkw)):
+            fail("python-jacobi-masses", "Particle(jacobi_masses=True) in a populated simulation", dict(rep))
+        interior_real = math.fsum(q.m for q in real)
+        if with_var and abs(interior - interior_real) > 1e-12 * interior_real:
+            fail("jacobi-masses-counts-variational", "Particle(jacobi_masses=True) sums the masses of variational particles into the interior mass",
+                 dict(rep, interior=interior, interior_real=interior_real))
+        dim("jacobi_masses")
+        # ---- hash arguments
+        hs = "name%d" % rng.randint(0, 10 ** 6)
+        ph = P(simulation=sim, hash=hs, **newkw)
+        hv = rng.randint(1, 2 ** 32 - 1)
+        pi_ = P(simulation=sim, hash=hv, **newkw)
+        with CapStderr() as cap:
+            pc = clib.reb_particle_from_fmt(ctypes.byref(sim), (" ".join(names) + " hash").encode(), *([D(newkw[n_]) for n_ in names] + [ctypes.c_uint32(hv)]))
+        if ph.hash.value != clib.reb_hash(hs.encode()) or pi_.hash.value != hv or pc.hash != hv and getattr(pc.hash, "value", pc.hash) != hv:
+            fail("hash-argument", "hash argument (string / int / C uint32) is not stored as reb_hash(name) / the integer", dict(rep, hs=hs, hv=hv))
+        dim("hash_string"); dim("hash_int")
+        # ---- read-back paths
+        prs = [pv_(sim.particles[0])]
+        # Jacobi: primary of particle i = centre of mass of particles 0..i-1
+        orbs = sim.orbits()
+        if len(orbs) != nreal - 1:
+            fail("orbits-length", "sim.orbits() does not return N_real-1 orbits", dict(rep, got=len(orbs)))
+        for i in range(1, nreal):
+            pr_o = fcom(real[:i])
+            if pr_o[6] <= 0:
+                continue
+            err_ = ctypes.c_int(0)
+            prP = P()
+            for k_, x_ in zip(COMPS + ["m"], pr_o):
+                setattr(prP, k_, x_)
+            want_o = clib.reb_orbit_from_particle_err(D(G), real[i], prP, ctypes.byref(err_))
+            if err_.value:
+                continue
+            rr = dict(rep, index=i)
+            same_orbit(orbs[i - 1], want_o, "orbits-jacobi", rr, tol=1e-9)
+            dim("readback_orbits_jacobi")
+            o_def = real[i].orbit()
+            same_orbit(o_def, want_o, "particle-orbit-default", rr, tol=1e-9)
+            dim("readback_particle_orbit_default")
+            # T with sim.t != 0:  n (t - T) = M  (mod 2 pi)
+            if sim.t != 0 and o_def.e < 1 and o_def.e > 1e-6 and o_def.M == o_def.M:
+                if angdiff(o_def.n * (sim.t - o_def.T), o_def.M) > 1e-9 * max(1.0, abs(o_def.n * (sim.t - o_def.T))):
+                    fail("orbit-T-with-t", "n (sim.t - T) != M for a particle in a simulation with t != 0", dict(rr, T=o_def.T, M=o_def.M, n=o_def.n))
+                dim("readback_T_with_t_nonzero")
+            check_reader(G, pv_(real[i]), pr_o, "dim-jacobi")
+        oh = sim.orbits(primary=sim.particles[0])
+        for i in range(1, nreal):
+            err_ = ctypes.c_int(0)
+            want_o = clib.reb_orbit_from_particle_err(D(G), real[i], sim.particles[0], ctypes.byref(err_))
+            same_orbit(oh[i - 1], want_o, "orbits-heliocentric", dict(rep, index=i))
+            same_orbit(real[i].orbit(primary=sim.particles[0]), want_o, "particle-orbit-primary", dict(rep, index=i))
+            dim("readback_orbits_heliocentric"); dim("readback_particle_orbit_primary")
+            check_reader(G, pv_(real[i]), pv_(sim.particles[0]), "dim-helio")
+        oj = sim.orbits(jacobi_masses=True)
+        for i in range(1, nreal):
+            pr_o = fcom(real[:i])
+            interior_m = pr_o[6]
+            if interior_m <= 0:
+                continue
+            prP = P()
+            for k_, x_ in zip(COMPS + ["m"], pr_o):
+                setattr(prP, k_, x_)
+            prP.m = real[0].m * (real[i].m + interior_m) / interior_m - real[i].m
+            err_ = ctypes.c_int(0)
+            want_o = clib.reb_orbit_from_particle_err(D(G), real[i], prP, ctypes.byref(err_))
+            if not err_.value:
+                same_orbit(oj[i - 1], want_o, "orbits-jacobi-masses", dict(rep, index=i), tol=1e-9)
+                dim("readback_orbits_jacobi_masses")
+        # free particle with explicit G
+        fp = P(m=real[1].m, x=real[1].x, y=real[1].y, z=real[1].z, vx=real[1].vx, vy=real[1].vy, vz=real[1].vz)
+        fpr = P(m=real[0].m, x=real[0].x, y=real[0].y, z=real[0].z, vx=real[0].vx, vy=real[0].vy, vz=real[0].vz)
+        og = fp.orbit(primary=fpr, G=G)
+        err_ = ctypes.c_int(0)
+        want_o = clib.reb_orbit_from_particle_err(D(G), fp, fpr, ctypes.byref(err_))
+        same_orbit(og, want_o, "particle-orbit-explicit-G", dict(rep))
+        if G != 1.0:
+            # a wrong G would show in the period
+            mu = G * (fp.m + fpr.m)
+            if og.a > 0 and not abs(og.P - 2 * PI * math.sqrt(og.a ** 3 / mu)) <= 1e-9 * abs(og.P):
+                fail("explicit-G-period", "orbit(primary, G=G): P is not 2 pi sqrt(a^3 / (G M))", dict(rep, P=og.P, a=og.a))
+        dim("explicit_G_free_particle")
+        if unit_case in (1, 2):
+            o1 = real[1].orbit(primary=sim.particles[0])
+            mu = sim.G * (real[1].m + real[0].m)
+            if o1.a > 0 and not abs(o1.P - 2 * PI * math.sqrt(o1.a ** 3 / mu)) <= 1e-9 * abs(o1.P):
+                fail("units-period", "with units set, P is not 2 pi sqrt(a^3/(sim.G M))", dict(rep, P=o1.P, a=o1.a))
+            if unit_case == 1 and not abs(sim.G - 4 * PI * PI) <= 1e-3 * 4 * PI * PI:
+                fail("units-G", "units (AU, yr, Msun) do not give G ~ 4 pi^2", dict(G=sim.G))
 
 
 def python_only(c, rebound, clib, P, rng, fail):
@@ -1469,7 +1781,10 @@ def roundtrips(c, rebound, clib, P, rng, fail, track, thorough, check_reader, ra
         rel = [pv[j] - getattr(pr0, COMPS[j]) for j in range(6)]
         rs = math.sqrt(sum(x * x for x in want[:3])); vs = math.sqrt(sum(x * x for x in want[3:]))
         big = max(1.0, max(abs(x) for x in kw.values() if isinstance(x, float)))
-        cond = big * (max(1.0, 1 / abs(1 - e)) ** 2)
+        if lon == "T":
+            big = max(big, nmean * abs(sim.t - kw["T"]))      # |M| = n |t - T|
+        rnow = math.sqrt(sum(x * x for x in want[:3]))
+        cond = big * (max(1.0, 1 / abs(1 - e)) ** 2) * max(1.0, (rnow / abs(a)) ** 2 * 1e-7)
         ep = max(abs(rel[j] - want[j]) for j in range(3)) / rs
         ev = max(abs(rel[j] - want[j]) for j in range(3, 6)) / vs
         track("python_constructor_vs_oracle", max(ep, ev) / cond)
@@ -1483,12 +1798,16 @@ def roundtrips(c, rebound, clib, P, rng, fail, track, thorough, check_reader, ra
             conde = cond * 10
             if not abs(o.a - a) <= 1e-9 * abs(a) * conde or not abs(o.e - e) <= 1e-9 * conde:
                 fail("readback-a-e", "orbit() does not return the a/e passed", dict(rep, a=o.a, e=o.e))
-            if angdiff(o.inc, inc) > 1e-7 or angdiff(o.Omega, Om) > 1e-6 * conde or angdiff(o.omega, om_) > 1e-6 * conde:
+            # direction of h = r x v: relative rounding eps * |r||v| / |h| (large far out on a hyperbola)
+            hdir = 1e-14 * rs * vs / math.sqrt(mu * abs(a * (1 - e * e)))
+            if angdiff(o.inc, inc) > 1e-7 + hdir or angdiff(o.Omega, Om) > 1e-6 * conde + hdir or angdiff(o.omega, om_) > 1e-6 * conde + hdir:
                 fail("readback-angles", "orbit() does not return inc/Omega/omega passed", dict(rep, inc=o.inc, Omega=o.Omega, omega=o.omega))
             if lon in ("M", "l", "T", "theta") and o.M == o.M:
                 got = getattr(o, lon)
                 if lon == "T":
-                    bad = abs(nmean * (got - kw["T"])) > 1e-6 * conde if hyp else angdiff(nmean * (got - kw["T"]), 0.0) > 1e-6 * conde
+                    # near the asymptote M is resolved through f only to (r/a)^2 eps / sqrt(e^2-1)
+                    resf = 8 * 2.3e-16 * (rs / abs(a)) ** 2 / math.sqrt(abs(e * e - 1)) if hyp else 0.0
+                    bad = abs(nmean * (got - kw["T"])) > 1e-6 * conde + resf if hyp else angdiff(nmean * (got - kw["T"]), 0.0) > 1e-6 * conde
                 else:
                     bad = (abs(math.remainder(got, 2 * PI) - kw[lon]) if (hyp and lon == "M" and abs(kw[lon]) < 3) else angdiff(got, kw[lon])) > 1e-6 * conde
                     if hyp and lon in ("M", "l"):
